@@ -15,7 +15,10 @@
 (*               scanner.go ReadObject / ReadStreamData  G_SCALAR (the      *)
 (*               scalarOnly rule for an indirect /Length), G_STMFIRST       *)
 (*               (a stream found INSIDE an object stream is refused before  *)
-(*               its /Length is looked at), G_SEEN, G_DEPTH                 *)
+(*               its /Length is looked at), G_FILTERTOP (the filter         *)
+(*               description of an object stream is never taken from an     *)
+(*               object stream: without it opening a container whose own    *)
+(*               /Filter is one of its members never ends), G_SEEN, G_DEPTH *)
 (*   "xref"      xref.go readXRef                        G_SEEN (seen[start])*)
 (*   "pages"     pagetree/read.go Iterator.All           G_SEEN             *)
 (*   "outline"   outline/outline.go readChildren/readItem G_SEEN, G_DEPTH   *)
@@ -66,7 +69,9 @@ CONSTANTS N,          \* objects
           StackCap,   \* beyond this the Go stack is considered exhausted
           G_SEEN, G_DEPTH, G_SCALAR, G_STMFIRST, G_CHAIN,
           G_GLOBDEPTH, \* the JBIG2Globals recursion is under the depth cap (before de83502 it was not)
-          G_WALKDEPTH  \* walker.walkObject is under a depth cap (as coded: it is not)
+          G_WALKDEPTH, \* walker.walkObject is under a depth cap (as coded: it is not)
+          G_FILTERTOP, \* GetFilters resolves /Filter and /DecodeParms with canObjStm = false
+          FSTREAM      \* the object layer also has streams with an indirect /Filter, and name objects
 
 Nodes    == 1..N
 Absent   == 0
@@ -93,7 +98,7 @@ wiring == <<Walker, kind, a, b>>
 (* ------------------------------------------------------------------------ *)
 Kinds ==
   CASE Walker = "resolve"  -> {"ref", "val"}
-    [] Walker = "length"   -> {"int", "ref", "dict", "stream"}
+    [] Walker = "length"   -> {"int", "ref", "dict", "stream"} \cup (IF FSTREAM THEN {"fstream", "name"} ELSE {})
     [] Walker = "xref"     -> {"table", "stream", "other"}
     [] Walker = "pages"    -> {"Pages", "PagesInh", "Page", "Other"}
     [] Walker = "outline"  -> {"item", "other"}
@@ -109,6 +114,7 @@ DomA(k) ==
   CASE Walker = "resolve"  -> IF k = "ref" THEN 1..Dangling ELSE {Absent}
     [] Walker = "length"   -> IF k = "ref" THEN 1..Dangling                \* target of the reference
                               ELSE IF k = "stream" THEN 0..Dangling        \* /Length: 0 = direct integer
+                              ELSE IF k = "fstream" THEN 0..Dangling       \* /Filter (direct /Length): 0 = none
                               ELSE {Absent}
     [] Walker = "xref"     -> IF k = "other" THEN {Absent} ELSE 0..Dangling \* /Prev (Dangling: not a valid offset)
     [] Walker = "pages"    -> IF k \in {"Pages", "PagesInh"} THEN 0..Dangling ELSE {Absent} \* /Kids[0]
@@ -217,6 +223,7 @@ FRes(p, can, sc)     == Frame("res", 0, can, sc, p, 0, 0)
 FStmLen(n)           == Frame("stmlen", n, FALSE, FALSE, {}, 0, 0)
 FCont(m)             == Frame("cont", m, FALSE, FALSE, {}, 0, 0)
 FMemLen(m)           == Frame("memlen", m, FALSE, FALSE, {}, 0, 0)
+FCFil(m)             == Frame("cfil", m, FALSE, FALSE, {}, 0, 0)
 Top    == stack[Len(stack)]
 Pop    == SubSeq(stack, 1, Len(stack) - 1)
 Push(s, f) == Append(s, f)
@@ -263,6 +270,9 @@ GetTop ==  /\ LengthGuard /\ Len(stack) <= StackCap /\ mode = "call" /\ Top.op =
               CASE k = "int"  -> Returns(RetV("int", 0))
                 [] k = "ref"  -> Returns(RetV("ref", a[n]))
                 [] k = "dict" -> IF Top.sc /\ G_SCALAR THEN Returns(RetV("err", 0)) ELSE Returns(RetV("dict", n))
+                [] k = "name" -> Returns(RetV("name", n))
+                \* the /Filter of a stream matters only when it is decoded
+                [] k = "fstream" -> IF Top.sc /\ G_SCALAR THEN Returns(RetV("err", 0)) ELSE Returns(RetV("stream", n))
                 [] k = "stream" ->
                      IF Top.sc /\ G_SCALAR THEN Returns(RetV("err", 0))     \* scalarOnly: composite refused
                      ELSE IF a[n] = 0 THEN Returns(RetV("stream", n))       \* direct /Length
@@ -284,25 +294,38 @@ ResRet ==  /\ LengthGuard /\ mode = "ret" /\ Top.op = "res"
 StmLenRet == /\ LengthGuard /\ mode = "ret" /\ Top.op = "stmlen"
              /\ Returns(RetV("stream", Top.n))
              /\ UNCHANGED <<wiring, wired, phase, start, cur, depth, seen, work, out>>
+\* contents.s.ReadObject() for member m of the decoded container: NOT in scalar mode
+Member(m) ==
+  LET k == kind[m] IN
+  CASE k = "int"  -> Returns(RetV("int", 0))
+    \* ReadObject leaves the detection of "n g R" to its caller, and getFromObjStm
+    \* does not do it: a bare reference inside an object stream comes back as the integer n
+    [] k = "ref"  -> Returns(RetV("int", 0))
+    [] k = "dict" -> Returns(RetV("dict", m))
+    [] k = "name" -> Returns(RetV("name", m))
+    [] k = "fstream" -> Returns(RetV("err", 0))         \* stream-like member with a direct /Length
+    [] k = "stream" ->
+         \* a dictionary followed by the keyword stream inside an object stream.
+         \* ReadStreamData can never read it (no file reader), but before a5e87d4 it
+         \* resolved /Length first, through a getter that may open object streams.
+         IF G_STMFIRST \/ a[m] = 0 THEN Returns(RetV("err", 0))
+         ELSE /\ stack' = CallResolve(Push(Pop, FMemLen(m)), a[m], TRUE, TRUE)
+              /\ mode' = "call" /\ UNCHANGED ret
 \* getFromObjStm: the container came back
 ContRet == /\ LengthGuard /\ mode = "ret" /\ Top.op = "cont"
            /\ IF ret.t # "stream"
               THEN Returns(RetV("err", 0)) /\ UNCHANGED work       \* "got %T instead object stream"
-              ELSE \* getObjStm + DecodeStream + contents.s.ReadObject(): NOT in scalar mode
-                   /\ work' = Tick(work)
-                   /\ LET m == Top.n k == kind[m] IN
-                      CASE k = "int"  -> Returns(RetV("int", 0))
-                        \* ReadObject leaves the detection of "n g R" to its caller, and getFromObjStm
-                        \* does not do it: a bare reference inside an object stream comes back as the integer n
-                        [] k = "ref"  -> Returns(RetV("int", 0))
-                        [] k = "dict" -> Returns(RetV("dict", m))
-                        [] k = "stream" ->
-                             \* a dictionary followed by the keyword stream inside an object stream.
-                             \* ReadStreamData can never read it (no file reader), but as coded it
-                             \* resolves /Length first, through a getter that may open object streams.
-                             IF G_STMFIRST \/ a[m] = 0 THEN Returns(RetV("err", 0))
-                             ELSE /\ stack' = CallResolve(Push(Pop, FMemLen(m)), a[m], TRUE, TRUE)
-                                  /\ mode' = "call" /\ UNCHANGED ret
+              \* getObjStm -> DecodeStream -> GetFilters: an indirect /Filter (or /DecodeParms, or an
+              \* element of those arrays) is resolved first - with canObjStm = false
+              ELSE IF kind[ret.v] = "fstream" /\ a[ret.v] # 0
+              THEN /\ stack' = CallResolve(Push(Pop, FCFil(Top.n)), a[ret.v], ~G_FILTERTOP, FALSE)
+                   /\ mode' = "call" /\ UNCHANGED <<ret, work>>
+              ELSE work' = Tick(work) /\ Member(Top.n)
+           /\ UNCHANGED <<wiring, wired, phase, start, cur, depth, seen, out>>
+\* the filter description came back: a name (or nothing) lets the decode go on
+CFilRet == /\ LengthGuard /\ mode = "ret" /\ Top.op = "cfil"
+           /\ IF ret.t \in {"name", "null"} THEN work' = Tick(work) /\ Member(Top.n)
+              ELSE Returns(RetV("err", 0)) /\ UNCHANGED work
            /\ UNCHANGED <<wiring, wired, phase, start, cur, depth, seen, out>>
 MemLenRet == /\ LengthGuard /\ mode = "ret" /\ Top.op = "memlen"
              /\ Returns(RetV("err", 0))                            \* "cannot read stream data"
@@ -312,7 +335,7 @@ LengthEnd == /\ phase = "walk" /\ Walker = "length" /\ Len(stack) = 0 /\ mode = 
              /\ Finish(<<ret.t>>)
              /\ UNCHANGED <<wiring, wired, start, mode, cur, depth, stack, seen, ret, work>>
 LengthNext == LengthBegin \/ LengthOverflow \/ GetFree \/ GetCompressed \/ GetTop \/ ResRet
-              \/ StmLenRet \/ ContRet \/ MemLenRet \/ LengthEnd
+              \/ StmLenRet \/ ContRet \/ CFilRet \/ MemLenRet \/ LengthEnd
 
 (* ------------------------------------------------------------------------ *)
 (* "xref": readXRef, the /Prev chain with seen[start] and /XRefStm          *)
